@@ -2,6 +2,7 @@ package c04
 
 import (
 	"fmt"
+	"sync"
 	"sync/atomic"
 
 	"verifh/engine"
@@ -113,4 +114,65 @@ func gatedSizeCase(k *engine.Case) {
 		tried = append(tried, fmt.Sprintf("[%s then %s: A->%q B->%q after: %s]", order[0], order[1], wantA, wantB, wantFinal))
 	}
 	k.Fail("gated:not-serializable", "A=%s was stopped inside its value's Size(), B=%s was issued meanwhile. Observed A->%q B->%q, afterwards %s. The ideal cache gives %v", a, b, outA, outB, final, tried)
+}
+
+// sizePollCase: "the summed item size never exceeds the capacity after an operation returns ...
+// also when operations are issued concurrently": a cache filled with many small items receives
+// one item as large as its whole capacity (the Set has to evict everything - a long critical
+// section) while other goroutines keep reading Size(), Length() and Stats(). No reading may
+// exceed the capacity, and Size never disagrees with what Length allows.
+func sizePollCase(k *engine.Case) {
+	r := k.R
+	n := 20000 + r.Intn(30000)
+	c := cache.NewLRUCache(int64(n))
+	for i := 0; i < n; i++ {
+		c.Set(i, &val{id: i, sz: 1})
+	}
+	k.Logf("cache.LRUCache capacity %d holding %d items of size 1; one Set of an item of size %d while 3 goroutines poll Size / Length / Stats", n, n, n)
+	k.Nontrivial()
+	var stop atomic.Bool
+	var worst atomic.Int64
+	var polls atomic.Int64
+	var wg sync.WaitGroup
+	for p := 0; p < 3; p++ {
+		p := p
+		wg.Add(1)
+		go func() {
+			defer wg.Done()
+			for !stop.Load() {
+				var sz int64
+				switch p {
+				case 0:
+					sz = c.Size()
+				case 1:
+					_, sz, _, _ = c.Stats()
+				default:
+					sz = c.Size()
+					if l := c.Length(); l > int64(n) {
+						sz = l + int64(n) // more entries than can fit
+					}
+				}
+				polls.Add(1)
+				for {
+					w := worst.Load()
+					if sz <= w || worst.CompareAndSwap(w, sz) {
+						break
+					}
+				}
+			}
+		}()
+	}
+	for round := 0; round < 6; round++ {
+		c.Set("big", &val{id: -7, sz: n})
+		for i := 0; i < n; i++ {
+			c.Set(i, &val{id: i, sz: 1})
+		}
+	}
+	stop.Store(true)
+	wg.Wait()
+	k.Evals(polls.Load())
+	k.Count("size_poll_readings", polls.Load())
+	if w := worst.Load(); w > int64(n) {
+		k.Fail("stress:size-over-capacity", "capacity %d: a concurrent reader saw a size of %d while one Set was evicting", n, w)
+	}
 }
